@@ -9,6 +9,8 @@ TB_COMMON = [
 ]
 
 NOT_YET = {}
+# specs present but not claimed right now (proofs under repair after a cross-branch model change)
+DISABLED = {"C14"}
 
 SPECS = {
     "C18": {
